@@ -120,7 +120,7 @@ func (g *scopeGen) funcBody(head string) {
 }
 
 func (g *scopeGen) stat() {
-	k := g.r.Intn(31)
+	k := g.r.Intn(33)
 	if g.depth >= 4 && k >= 12 && k <= 20 {
 		k = g.r.Intn(10)
 	}
@@ -301,6 +301,19 @@ func (g *scopeGen) stat() {
 		}
 		g.line("local " + g.name() + " = {" + n + "=" + n + "," + n + "=" + n + "}")
 		g.line("print(" + n + "." + n + ")")
+	case 31:
+		// a concatenation chain written without blanks: every operand is an identifier of its own
+		n := g.name()
+		g.line("local " + n + " = " + g.useName() + ".." + g.useName() + ".." + g.useName() + []string{"", "..\"!\"", ".." + g.useName()}[g.r.Intn(3)])
+		g.locals = append(g.locals, n)
+	case 32:
+		// attributes: the declared name is the identifier, not the attribute behind it
+		n1, n2 := g.name(), g.name()
+		for n2 == n1 {
+			n2 = g.name()
+		}
+		g.line("local " + n1 + " <const>, " + n2 + []string{" <const>", " <close>", ""}[g.r.Intn(3)] + " = " + g.exp(1) + ", nil")
+		g.locals = append(g.locals, n1, n2)
 	default:
 		g.line("local " + g.name() + ", " + g.name())
 	}
